@@ -308,9 +308,9 @@ class C02(Plan):
             j += conc_jobs("rel", "clonedrop", 300000, seed, p, delay=2, nshards=8, first0=10 ** 6)
             j += conc_jobs("off", "clonedrop", 100000, seed, p, delay=0, nshards=4, first0=6 * 10 ** 6)
             for d in (0, 1, 2):
-                j += conc_jobs("tsan", "clonedrop", 330000, seed, p, delay=d, nshards=8, first0=(2 + d) * 10 ** 6, timeout=3000)
-            j += conc_jobs("asan", "clonedrop", 100000, seed, p, delay=2, nshards=8, first0=5 * 10 ** 6, timeout=3000)
-            j += miri_conc_jobs("clonedrop", 2048, 6, seed, p, first0=7 * 10 ** 6, extra_flags=PREEMPT)
+                j += conc_jobs("tsan", "clonedrop", 160000, seed, p, delay=d, nshards=8, first0=(2 + d) * 10 ** 6, timeout=3000)
+            j += conc_jobs("asan", "clonedrop", 60000, seed, p, delay=2, nshards=8, first0=5 * 10 ** 6, timeout=3000)
+            j += miri_conc_jobs("clonedrop", 1024, 6, seed, p, first0=7 * 10 ** 6, extra_flags=PREEMPT)
             j += forced_jobs("clonedrop", seed, p, big=True)
             for scen in ("cow", "unwraprace"):
                 j += conc_jobs("dbg", scen, 2000, seed, p, delay=0, nshards=8, first0=30 * 10 ** 6, forced=True, timeout=3000)
@@ -377,9 +377,9 @@ class HistConc(HistPlan):
             j += conc_jobs("dbg", self.scen, 200000, seed, p, delay=1, nshards=8)
             j += conc_jobs("rel", self.scen, 200000, seed, p, delay=2, nshards=8, first0=10 ** 6)
             for d in (0, 1, 2):
-                j += conc_jobs("tsan", self.scen, 330000, seed, p, delay=d, nshards=8, first0=(2 + d) * 10 ** 6, timeout=3000)
-            j += conc_jobs("asan", self.scen, 50000, seed, p, delay=2, nshards=4, first0=5 * 10 ** 6, timeout=3000)
-            j += miri_conc_jobs(self.scen, 1024, self.per_cycle, seed, p, first0=6 * 10 ** 6, extra_flags=PREEMPT)
+                j += conc_jobs("tsan", self.scen, 150000, seed, p, delay=d, nshards=8, first0=(2 + d) * 10 ** 6, timeout=3000)
+            j += conc_jobs("asan", self.scen, 30000, seed, p, delay=2, nshards=4, first0=5 * 10 ** 6, timeout=3000)
+            j += miri_conc_jobs(self.scen, 512, self.per_cycle, seed, p, first0=6 * 10 ** 6, extra_flags=PREEMPT)
             j += forced_jobs(self.scen, seed, p, big=True)
         return j
 
